@@ -6,8 +6,8 @@ sed -i "s#path = \"/repo\"#path = \"$REPO\"#" harness/lsmv/Cargo.toml
 export LSMV_CASE_TIMEOUT_MS=900000
 while read -r seed ids; do
   [ -z "$seed" ] && continue
-  if ! git -C "$REPO" apply --check "seeded/$seed/patch.diff" 2>/dev/null; then echo "$seed: patch does not apply"; continue; fi
-  git -C "$REPO" apply "seeded/$seed/patch.diff"
+  if ! git -C "$REPO" apply --check "$PWD/seeded/$seed/patch.diff" 2>/dev/null; then echo "$seed: patch does not apply"; continue; fi
+  git -C "$REPO" apply "$PWD/seeded/$seed/patch.diff"
   for id in $ids; do
     t0=$(date +%s); out=$(./check $id quick 2>&1); rc=$?; t1=$(date +%s)
     echo "MATRIX $seed $id exit=$rc $((t1-t0))s $(echo "$out" | grep -E '^(FAILURE|HARNESS|WATCHDOG)' | head -1 | cut -c1-200)"
